@@ -33,7 +33,18 @@ OPTSETS = {"R3": ["ac", "ac_nols", "ac_nonumba", "dc"], "M4": ["ac", "ac_nols", 
 def extra_menu(b):
     """passive-branch parameter corners not in the shared structure menu + demand at the slack bus itself"""
     s = 20. if b == "M4" else 1.
-    return [["load", 0, 0.7 * s, 0.2 * s, "P", 1., True]] + _extra_menu(b)
+    vE = float(na.base(b).ext_grid.vm_pu.iloc[0])
+    hot = na.HOT[b][0]
+    m = [["load", 0, 0.7 * s, 0.2 * s, "P", 1., True],
+         # voltage-controlled generation at the reference bus itself (AC and DC slack dispatch at a shared bus)
+         ["genx", 0, 0.6 * s, vE, -50. * s, 50. * s, 1., False, True, 0.],
+         # conductance-only / susceptance-only shunt-type elements (the fast-path guard looks at GS and BS separately)
+         ["shunt", hot, 0.1 * s, 0., 1, 1.0, True], ["wardx", hot, 0., 0., 0.2 * s, 0.], ["wardx", hot, 0.3 * s, 0.1 * s, 0., 0.]]
+    if b == "W3":
+        # a second / third three-winding transformer with different losses (results are stored grouped by side)
+        m += [["t3x", 0, 1, 2, {"vkr_hv_percent": 0.6, "vkr_mv_percent": 0.1, "pfe_kw": 5., "vk_hv_percent": 12.}],
+              ["t3x", 0, 3, 2, {"vkr_lv_percent": 0.9, "pfe_kw": 60., "i0_percent": 0.3}]]
+    return m + _extra_menu(b)
 
 
 def _extra_menu(b):
@@ -63,7 +74,12 @@ def _extra_menu(b):
 
 def bus_menu(b):
     """bus elements on the collision buses; ZIP loads only via "zbus" (own new bus: alone on their node)"""
-    m = [d for d in na.bus_element_menu(b, rich=False) if not (d[0] == "load" and d[4] != "P")]
+    hot = na.HOT[b]
+
+    def drop(d):      # budget: variants that only matter for q-limits / scaling of results (C04, C01) are left out here
+        return (d[0] == "load" and (d[4] != "P" or not d[6])) or (d[0] == "gen" and d[4] in ("tight", "none")) or \
+            d[0] == "asym_sgen" or (d[0] == "sgen" and (d[4] != 1. or d[1] != hot[0])) or (d[0] == "storage" and d[2] < 0)
+    m = [d for d in na.bus_element_menu(b, rich=False) if not drop(d)]
     s = 20. if b == "M4" else 1.
     b0 = na.HOT[b][0]
     m += [["zbus", b0, 1.0 * s, 0.4 * s, "Z", 1.], ["zbus", b0, 1.2 * s, 0.3 * s, "M2", 0.5],
@@ -230,13 +246,25 @@ def run_case(case):
     return out
 
 
+def optsets_for(b, devs):
+    """budget: the pandapower-Newton (lightsim2grid off) and pi-model runs repeat the same back-substitution code as "ac";
+    they are kept for every case with <=1 deviation and for the pairs that touch what they are about"""
+    o = list(OPTSETS[b])
+    if len(devs) >= 2:
+        if "ac_nols" in o and not any(d[0] in ("genx", "gen", "xward", "dcline", "ext_grid") for d in devs):
+            o.remove("ac_nols")
+        if "ac_pi" in o and not any(d[0] in ("trafo", "t3x") or (d[0] == "set" and d[1] in ("trafo", "trafo3w")) for d in devs):
+            o.remove("ac_pi")
+    return o
+
+
 def gen_cases(tier):
     import os
     cases = []
     for b in (os.environ.get("A_BASES", "").split(",") if os.environ.get("A_BASES") else BASES):   # A_BASES: development only
         menu = bus_menu(b) + na.structure_menu(b) + extra_menu(b)
         for devs in na.subsets(menu, 2):
-            cases.append({"base": b, "devs": [list(d) for d in devs], "optsets": OPTSETS[b]})
+            cases.append({"base": b, "devs": [list(d) for d in devs], "optsets": optsets_for(b, devs)})
         if tier == "thorough":
             m3 = na.structure_menu(b) + extra_menu(b) + [d for d in bus_menu(b) if d[0] in ("sgen", "shunt", "gen", "xward", "ext_grid")][:6]
             for devs in na.subsets(m3, 3):
